@@ -549,7 +549,7 @@ def rule_prefix_tests_at_boundary(chk, rid, all_stores=False):
                 a = c.args[0]
                 n += 1
                 ok = False
-                slashed = lambda e: isinstance(e, ast.BinOp) and isinstance(e.op, ast.Add) and isinstance(e.right, ast.Constant) and e.right.value == "/"
+                from ..lib import is_slash_terminated as slashed
                 if slashed(a):
                     ok = True
                 elif isinstance(a, ast.Name):
